@@ -314,6 +314,27 @@ pub(crate) fn op_write_targets(op: &WarpOp) -> OpTargets {
     }
 }
 
+/// Store-aware write targets of `op`.
+///
+/// In addition to [`op_write_targets`], an `UpsertEdge` that moves an existing
+/// edge to a different source node also rewrites the *previous* source's
+/// outbound adjacency, so that node is a write target too.
+#[cfg(any(debug_assertions, feature = "footprint_enforce_release"))]
+#[cfg(not(feature = "unsafe_graph"))]
+pub(crate) fn op_write_targets_in(store: &crate::graph::GraphStore, op: &WarpOp) -> OpTargets {
+    let mut targets = op_write_targets(op);
+    if let WarpOp::UpsertEdge { warp_id, record } = op {
+        if *warp_id == store.warp_id() {
+            if let Some(prev_from) = store.edge_index.get(&record.id) {
+                if *prev_from != record.from {
+                    targets.nodes.push(*prev_from);
+                }
+            }
+        }
+    }
+    targets
+}
+
 // ─────────────────────────────────────────────────────────────────────────────
 // FootprintGuard: runtime enforcement of declared footprints
 // ─────────────────────────────────────────────────────────────────────────────
@@ -493,8 +514,9 @@ impl FootprintGuard {
     /// 3. Missing `op_warp` on non-instance ops is always an error
     /// 4. Node/edge/attachment targets must be in the write sets
     #[track_caller]
-    pub(crate) fn check_op(&self, op: &WarpOp) {
-        let targets = op_write_targets(op);
+    pub(crate) fn check_op(&self, store: &crate::graph::GraphStore, op: &WarpOp) {
+        // Store-aware: a re-parenting `UpsertEdge` also writes the previous source.
+        let targets = op_write_targets_in(store, op);
 
         // 1. Instance-level ops blocked for user rules
         if targets.is_instance_op && !self.is_system {
